@@ -39,7 +39,8 @@ ASSUMPTIONS = [
     "in the fast path their program is compiled and inspected",
 ]
 
-NAME = "k"
+# (a name that starts with characters of the folder prefix ".xyz-")
+NAME = "zx-k"
 IDXVAR = {"sge": "SGE_TASK_ID", "pbs": "PBS_ARRAY_INDEX",
           "slurm": "SLURM_ARRAY_TASK_ID"}
 RANGE = {"sge": re.compile(r"^#\$ -t (\d+)-(\d+)$", re.M),
